@@ -1120,6 +1120,7 @@ fn run(c: &Case) -> Obs {
         "pr" => run_pr(c),
         "bwh" => run_bwh(c),
         "bph" => run_bph(c),
+        "lzv" => run_lzv(c),
         _ => Obs { obs: "-".into(), verdict: "skip".into(), nontrivial: false },
     }
 }
